@@ -321,6 +321,27 @@ def main(prop_name, tier, seed, replay=None):
         errors.extend(e)
         if classify(prop, r)[0]:
             break   # a later stage only makes sense when the earlier one holds (e.g. deeper call chains)
+    if getattr(prop, "ENV_COMPARE", 0) and not replay and recs:
+        # properties whose cases need more than the generator's text (oracles, compiled batches): a sample of the cases is
+        # generated once more from a cargo build-script environment and must give the very same result
+        n = prop.ENV_COMPARE
+        pool = [rec for rec in recs if rec["res"].get("result") in ("ok", "err") and rec["case"].get("env") is None]
+        sample = pool[:: max(1, len(pool) // n)][:n]
+        if sample:
+            plain = [{k: rec["case"][k] for k in ("wgsl", "include", "opts", "want_text") if k in rec["case"]} for rec in sample]
+            for i, pl in enumerate(plain):
+                pl["id"] = i
+            eres = run_driver(plain, workdir, "envcmp", timeout=getattr(prop, "DRIVER_TIMEOUT", 3000), env=build_script_env(workdir))
+            for rec, er in zip(sample, eres):
+                a, b = rec["res"], er
+                if (a.get("result"), a.get("out"), a.get("err"), a.get("extract_err")) != (b.get("result"), b.get("out"), b.get("err"), b.get("extract_err")):
+                    c2 = dict(rec["case"], env="build_script", family=str(rec["case"].get("family")) + "+build_script_env",
+                              note="the same call made from a cargo build-script environment returned a different result "
+                                   "(plain: %s / %s; build script: %s / %s)" % (a.get("result"), str(a.get("out"))[:300], b.get("result"), str(b.get("out"))[:300]))
+                    recs.append({"case": c2, "res": er, "verdict": ["true", "true", "false"] + ["false"] * (len(rec.get("verdict") or []) - 3), "skip": None})
+                else:
+                    recs.append({"case": dict(rec["case"], env="build_script", family=str(rec["case"].get("family")) + "+build_script_env"),
+                                 "res": er, "verdict": rec.get("verdict"), "skip": rec.get("skip"), **({"noout": True} if rec.get("noout") else {})})
     viol, disag, wfbad, broken, ok = classify(prop, recs)
 
     # exhaustive comparison of the leaf tables this property reads (driver tables, through the verification hooks)
